@@ -67,7 +67,8 @@ def c13_case(draw):
 
 ILLEGAL = ['ro_twice', 'ro_overlap', 'ro_after_use', 'ro_slice_after_use', 'dro_scen_twice', 'dro_scen_overlap', 'dro_int_affine',
            'dro_bin_affine', 'dro_affine_twice', 'dro_affine_overlap', 'dro_affine_after_solve', 'dro_event_after_solve',
-           'dro_affine_after_do_math', 'dro_unknown_scenario']
+           'dro_affine_after_do_math', 'dro_unknown_scenario', 'dro_mixed_int_entry_affine', 'dro_mixed_int_whole_affine',
+           'dro_mixed_int_slice_affine', 'dro_mixed_bin_entry_affine', 'dro_int_slice_affine']
 
 
 def blocks_of(calls, S):
@@ -159,6 +160,19 @@ def illegal(case):
         x = m.dvar(n); x.adapt(S + 3)
     elif w in ('dro_int_affine', 'dro_bin_affine'):
         x = m.dvar(n, 'I' if 'int' in w else 'B'); z = m.rvar(n); x.adapt(z)
+    elif w.startswith('dro_mixed') or w == 'dro_int_slice_affine':
+        # arrays declared with a type string per entry: integer / binary entries must not get affine adaptation
+        vt = {'dro_mixed_int_entry_affine': 'CIC', 'dro_mixed_int_whole_affine': 'CIC', 'dro_mixed_int_slice_affine': 'CCI',
+              'dro_mixed_bin_entry_affine': 'CBC', 'dro_int_slice_affine': 'I'}[w]
+        x = m.dvar(3, vt)
+        z = m.rvar(n)
+        x[0].adapt(z) if vt[0] == 'C' else None      # positive control: the continuous entry may adapt
+        if w.endswith('entry_affine'):
+            x[1].adapt(z)
+        elif w == 'dro_mixed_int_whole_affine':
+            x[1:].adapt(z) if False else x.adapt(z[0]) if n > 1 else x[1:].adapt(z)
+        else:
+            x[1:].adapt(z)
     elif w == 'dro_affine_twice':
         x = m.dvar(n); z = m.rvar(n); x.adapt(z); x.adapt(z)
     elif w == 'dro_affine_overlap':
